@@ -1,35 +1,3 @@
-/-! GENERATED by tools/evalfacts from evaluator.go, function_storer.go, runner.go and internal/tree/expression.go — do not edit -/
-namespace Ysgo.Generated
-/-- the operator switch of evaluateBinaryOperation: (operator, [(guard, result)], has a trailing error return) -/
-def opSwitch : List (String × List (String × String) × Bool) := [
-  ("Multiplication", [("Numbers", "num:*:LR")], true),
-  ("Division", [("Numbers", "num:/:LR")], true),
-  ("Modulo", [("Numbers", "num:math.Mod:LR")], true),
-  ("Addition", [("Numbers", "num:+:LR"), ("Strings", "str:+:LR")], true),
-  ("Subtraction", [("Numbers", "num:-:LR")], true),
-  ("LessThanEquals", [("Numbers", "bool:<=:LR")], true),
-  ("GreaterThanEquals", [("Numbers", "bool:>=:LR")], true),
-  ("Less", [("Numbers", "bool:<:LR")], true),
-  ("Greater", [("Numbers", "bool:>:LR")], true),
-  ("Equals", [("Numbers", "bool:==:LR"), ("Booleans", "bool:==:LR"), ("Strings", "bool:==:LR")], false),
-  ("NotEquals", [("Numbers", "bool:!=:LR"), ("Booleans", "bool:!=:LR"), ("Strings", "bool:!=:LR")], false),
-  ("And", [("Booleans", "right")], true),
-  ("Or", [("Booleans", "right")], true),
-  ("Xor", [("Booleans", "bool:xor:LR")], true)
-]
-/-- the lazy tests before the right operand is evaluated: (operator, condition on the left value under which it is returned) -/
-def lazyTests : List (String × String) := [("And", "!*leftOperandValue.Boolean"), ("Or", "*leftOperandValue.Boolean")]
-/-- the operands must have the same type before the switch is entered -/
-def sameTypeGuard : Bool := true
-/-- how the three guards are computed -/
-def guards : List (String × String) := [("Numbers", "leftOperandValue.Number != nil && rightOperandValue.Number != nil"), ("Booleans", "leftOperandValue.Boolean != nil && rightOperandValue.Boolean != nil"), ("Strings", "leftOperandValue.String != nil && rightOperandValue.String != nil")]
-/-- the map literals of newFunctionStorer: built-in name ↦ Go expression bound to it -/
-def builtinRegistry : List (String × String) := [("bool", "toBoolean"), ("ceil", "ceil"), ("dec", "dec"), ("decimal", "decimal"), ("dice", "checkedDice(rng)"), ("floor", "floor"), ("inc", "inc"), ("integer", "integer"), ("number", "toFloat"), ("random", "random(rng)"), ("random_range", "checkedRandomRange(rng)"), ("round", "round"), ("round_places", "roundPlaces"), ("string", "toString")]
-/-- the functions NewDialogueRunner adds -/
-def runnerBuiltins : List String := ["visited", "visited_count"]
-/-- tokenToBinaryOperator / tokenToInplaceOperator -/
-def tokenToBinary : List (String × String) := [("OPERATOR_LOGICAL_AND", "AndBinaryOperator"), ("OPERATOR_LOGICAL_EQUALS", "EqualsBinaryOperator"), ("OPERATOR_LOGICAL_GREATER", "GreaterBinaryOperator"), ("OPERATOR_LOGICAL_GREATER_THAN_EQUALS", "GreaterThanEqualsBinaryOperator"), ("OPERATOR_LOGICAL_LESS", "LessBinaryOperator"), ("OPERATOR_LOGICAL_LESS_THAN_EQUALS", "LessThanEqualsBinaryOperator"), ("OPERATOR_LOGICAL_NOT_EQUALS", "NotEqualsBinaryOperator"), ("OPERATOR_LOGICAL_OR", "OrBinaryOperator"), ("OPERATOR_LOGICAL_XOR", "XorBinaryOperator"), ("OPERATOR_MATHS_ADDITION", "AdditionBinaryOperator"), ("OPERATOR_MATHS_DIVISION", "DivisionBinaryOperator"), ("OPERATOR_MATHS_MODULUS", "ModuloBinaryOperator"), ("OPERATOR_MATHS_MULTIPLICATION", "MultiplicationBinaryOperator"), ("OPERATOR_MATHS_SUBTRACTION", "SubtractionBinaryOperator")]
-def tokenToInplace : List (String × String) := [("OPERATOR_ASSIGNMENT", "AssignmentInPlaceOperator"), ("OPERATOR_MATHS_ADDITION_EQUALS", "AdditionInPlaceOperator"), ("OPERATOR_MATHS_DIVISION_EQUALS", "DivisionInPlaceOperator"), ("OPERATOR_MATHS_MODULUS_EQUALS", "ModuloInPlaceOperator"), ("OPERATOR_MATHS_MULTIPLICATION_EQUALS", "MultiplicationInPlaceOperator"), ("OPERATOR_MATHS_SUBTRACTION_EQUALS", "SubtractionInPlaceOperator")]
-/-- the operator constants in declaration order -/
-def operatorConsts : List String := ["MultiplicationBinaryOperator = iota", "DivisionBinaryOperator", "ModuloBinaryOperator", "AdditionBinaryOperator", "SubtractionBinaryOperator", "LessThanEqualsBinaryOperator", "GreaterThanEqualsBinaryOperator", "LessBinaryOperator", "GreaterBinaryOperator", "EqualsBinaryOperator", "NotEqualsBinaryOperator", "AndBinaryOperator", "OrBinaryOperator", "XorBinaryOperator", "AssignmentInPlaceOperator = iota", "MultiplicationInPlaceOperator", "DivisionInPlaceOperator", "ModuloInPlaceOperator", "AdditionInPlaceOperator", "SubtractionInPlaceOperator"]
-end Ysgo.Generated
+-- extractor failed
+#eval (panic! "extractor evalfacts failed" : Nat)
+example : False := by trivial
